@@ -1003,6 +1003,20 @@ func (cm *CoverModel) Uncovered(sel func(*MutSite) bool) []lifted {
 			}
 		}
 	}
+	// callers that no root reaches (helpers kept around unused) are not paths of the program
+	deadFn := map[string]bool{}
+	for _, d := range cm.mm.dead {
+		deadFn[d] = true
+	}
+	for g, cs := range callersOf {
+		var liveCs []csite
+		for _, c := range cs {
+			if !deadFn[fnName(enclosing(c.caller))] {
+				liveCs = append(liveCs, c)
+			}
+		}
+		callersOf[g] = liveCs
+	}
 	var out []lifted
 	for _, s := range cm.mm.all {
 		if sel != nil && !sel(s) {
